@@ -353,6 +353,112 @@ def c18_unify(a: I3, b: I3, order: int) -> bool:
     return _unify_common("c18_unify", (a, b, order), ia, ib, od, 0)
 
 
+# ----------------------------------------------------------------------------------------
+# (a') two successive unifications into one receiver (forwarded nodes are forwarded again)
+
+def _flat(spec):
+    """plain O-FS structure with top-level features only; spec: feature -> ('var', name) | ('val', atom);
+    features holding the same variable share one unspecified node"""
+    nodes = [("C", {})]
+    var_node = {}
+    for feat, (kind, what) in spec.items():
+        if kind == "var":
+            if what not in var_node:
+                var_node[what] = len(nodes)
+                nodes.append(("C", {}))
+            nodes[0][1][feat] = var_node[what]
+        else:
+            nodes[0][1][feat] = len(nodes)
+            nodes.append(("A", what))
+    return {"root": 0, "nodes": nodes}
+
+
+def _chain_family():
+    feats = ["f", "g", "k"]
+    shared = []
+    for i in range(3):
+        rest = feats[i]
+        pair = [x for x in feats if x != rest]
+        base = {pair[0]: ("var", "v"), pair[1]: ("var", "v")}
+        shared.append(dict(base))
+        shared.append(dict(base, **{rest: ("val", "1")}))
+        shared.append(dict(base, **{rest: ("var", "w")}))
+    shared.append({x: ("var", "v") for x in feats})
+    single = [{x: ("val", v)} for x in feats for v in ATOMS[:2]] + shared[0:9:3]
+    return shared, single
+
+
+CHAIN_SHARED, CHAIN_LAST = _chain_family()          # 10 receivers / first arguments, 9 second arguments
+CHAIN_FS = [_flat(x) for x in CHAIN_SHARED]
+CHAIN_LAST_FS = [_flat(x) for x in CHAIN_LAST]
+
+
+def _chain_oracle(args, obs):
+    ia, ib, ic = args
+    A, B, C = CHAIN_FS[ia], CHAIN_FS[ib], CHAIN_LAST_FS[ic]
+    s1, g1 = O.unify(A, B)
+    s2, g2 = O.unify(g1, C)
+    tags = ["chain_of_two_unifications", "oracle_" + s2]
+    note = {"a": CHAIN_SHARED[ia], "b": CHAIN_SHARED[ib], "c": CHAIN_LAST[ic], "oracle": [s1, s2]}
+    fails = []
+    built = obs["built"]
+    if built[0] != "ok":
+        fails.append(chx.exc_failure("build", built, tags=tags))
+        return True, fails, note
+    a, b, c = built[1]
+    r1, r2 = obs["r1"], obs["r2"]
+    if r1[0] != "ok":
+        fails.append(chx.exc_failure("unify", r1, tags=tags))
+        return True, fails, note
+    if s2 == "clash":
+        if r2[0] == "ok":
+            fails.append({"kind": "verdict", "op": "unify.second", "tags": tags,
+                          "detail": "incompatible structures were unified without an exception"})
+        elif r2[1] != NOT_COMPATIBLE:
+            fails.append(chx.exc_failure("unify.second", r2, tags=tags))
+        return True, fails, note
+    if r2[0] != "ok":
+        if r2[1] == NOT_COMPATIBLE:
+            fails.append({"kind": "verdict", "op": "unify.second", "tags": tags, "exc": r2[1], "site": r2[2],
+                          "detail": "compatible structures rejected"})
+        else:
+            fails.append(chx.exc_failure("unify.second", r2, tags=tags))
+        return True, fails, note
+    got, cn = _observe(a, "receiver after two unifications", fails, "unify.second", tags)
+    if cn is not None:
+        if cn != O.canon(g2):
+            fails.append({"kind": "glb", "op": "unify.second", "tags": tags,
+                          "detail": "receiver is %r, glb is %r" % (cn, O.canon(g2))})
+        else:
+            _check_all_paths(a, g2, fails, "unify.second", tags)
+    return True, fails, note
+
+
+def c18_unify_chain(ai: int, bi: int, ci: int) -> bool:
+    """
+    pre: pinned(ai=ai)
+    pre: ((0 <= ai) & (ai < 10)) & ((0 <= bi) & (bi < 10)) & ((0 <= ci) & (ci < 9))
+    post: _
+    """
+    raw = (ai, bi, ci)
+    ia, ib, ic = enc.pick(ai, 10), enc.pick(bi, 10), enc.pick(ci, 9)
+    A, B, C = CHAIN_FS[ia], CHAIN_FS[ib], CHAIN_LAST_FS[ic]
+    with chx.NT():
+        s1, g1 = O.unify(A, B)
+        s2 = O.unify(g1, C)[0] if s1 == "ok" else None
+    if s1 != "ok" or s2 in ("type", "cyclic"):
+        return chx.assumed_away("c18_unify_chain")
+    chx.enter("c18_unify_chain", raw)
+    built = chx.guarded(lambda: (build(A, 0, 0), build(B, 0, 0), build(C, 0, 0)))
+    obs = {"built": built, "r1": None, "r2": None}
+    if built[0] == "ok":
+        a, b, c = built[1]
+        obs["r1"] = chx.guarded(a.unify, b)
+        if obs["r1"][0] == "ok":
+            obs["r2"] = chx.guarded(a.unify, c)
+    return chx.judge("C18", "c18_unify_chain", raw, (ia, ib, ic), obs, _chain_oracle, realize_obs=False)
+
+
 def c18_unify_text(a: I3, b: I3, order: int, style: int) -> bool:
     """
     pre: pinned(a0=a[0], a1=a[1], b0=b[0], b1=b[1], order=order, style=style)
@@ -912,4 +1018,11 @@ CONDS = [
          FCFG_FUNCS + ["CFG.contains (second reference, native)"], "the grammar derives some word of length <= 3",
          assumptions=["feature grammars: one atomic-valued feature N over the value domain {s, p}; the reference "
                       "instantiates every variable and every unannotated occurrence with every value"]),
+    Cond("C18", c18_unify_chain, lambda tier: product_pins(ai=list(range(10))),
+         {"quick": "two successive unifications into one receiver, a.unify(b) then a.unify(c): a, b from the 10 "
+                   "structures over the features f, g, k in which two or three features share one variable (the third "
+                   "absent / atomic / another variable), c from {one feature with an atom (6), a shared pair (3)}: "
+                   "the receiver is the glb of all three, or the second call raises exactly on a clash",
+          "thorough": "same"},
+         FS_FUNCS, "always"),
 ]
